@@ -26,6 +26,8 @@
                  * NthRow, second and third init_xxx: key / value read from the table before the row was allocated;
                    they are in the table, but that the table still ITERATES to them after the heap grew needs the
                    stability of == under allocation (VmTableKeys.veq0_ext, valid for well-formed keys), not redone here
+                 * the copy loops of the natives: the key / value being copied (same reason: they come from the
+                   source table, which is on the stack)
                  * NthRow when the i-th key of the key vector has no entry in the hash part (CaoLangTable::iter
                    skips it, so the collector does not trace it)
 
@@ -34,11 +36,11 @@
    (harness/src/c02.rs, gcprobe.rs) exercise exactly these points on the implementation.
 
    Covered: StringLiteral, InitTable, SetProperty, FunctionPointer, Closure, NativeFunctionPointer, NthRow,
-   AppendTable, RegisterUpvalue, and through CallNative / CallFunction on a native function value the entry allocation (init_table of the result / of the
-   snapshot) of __to_array, __min, __max, __sort.
-   NOT covered (no apoint is generated, see the header of Properties/C02.v): allocation points of a native after its
-   first init_table (per-entry growth of the copy, make_row, the nested runs of the key function under the guards of
-   min/max/sorted), Vm::insert_value (host API),
+   AppendTable, RegisterUpvalue, and through CallNative / CallFunction on a native function value __to_array (whole)
+   and __min, __max, __sort up to the first call of the key function (init_table of the snapshot and the copy loop).
+   NOT covered (no apoint is generated, see the header of Properties/C02.v): the allocation points of __min / __max /
+   __sort from the first call of the key function on (the nested runs of the key function under the guards `entries`,
+   max_key, key_guards; make_row; the result table of sorted), Vm::insert_value (host API),
    and all other opcodes do not allocate.  The two inserts into the fresh row table of NthRow / make_row never grow
    (capacity 8, load 0.7: first growth at the 6th entry) and are not allocation points. *)
 From Coq Require Import NArith ZArith List Lia Bool.
@@ -180,17 +182,62 @@ Definition ap_45 (ip : N) (s : state) : list apoint :=
   | _, _ => []
   end.
 
-(* the first init_table of the stdlib natives; the arguments are peeked by the wrappers of traits.rs (f2fa4af) and
-   stay on the stack: __to_array(iterable) = peek 0; __min/__max/__sort(iterable, key_fn) = peek 1, peek 0 *)
+(* a native fills a fresh table [out], which it holds under a guard, with the entries [ins] read from the table [src]
+   (an argument, still on the stack): every insert of a key the copy does not hold yet may grow the copy.  At that
+   moment the heap has the copy as filled so far ([set_table s2 out t]; Vm.v writes the copy only once at the end). *)
+Fixpoint fill_points (eq : eqfun) (s2 : state) (src out : N) (others : list N) (t : table)
+         (ins : list (value * value)) : list apoint :=
+  match ins with
+  | [] => []
+  | (k, v) :: r =>
+      let u := vaddr k ++ vaddr v in
+      match map_find eq k (tmap t) with
+      | Some None => [mkAP AGrow (set_table s2 out t) [out] (src :: out :: others ++ u) u]
+      | _ => []
+      end ++
+      match tinsert eq t k v with
+      | Some t' => fill_points eq s2 src out others t' r
+      | None => []
+      end
+  end.
+
+(* native_to_array: table.insert(i as i64, *val) for (i, (_, val)) in t.iter().enumerate() *)
+Fixpoint to_array_ins (i : Z) (l : list (value * value)) : list (value * value) :=
+  match l with
+  | [] => []
+  | (_, v) :: r => (VInt i, v) :: to_array_ins (i + 1) r
+  end.
+
+(* the stdlib natives up to the first call of the key function; the arguments are peeked by the wrappers of traits.rs
+   (f2fa4af) and stay on the stack: __to_array(iterable) = peek 0; __min/__max/__sort(iterable, key_fn) = peek 1,
+   peek 0.  init_table of the result (to_array) / of the snapshot (min, max, sort: stdlib.rs snapshot), then the copy
+   loop *)
 Definition ap_native (n : native) (s : state) : list apoint :=
-  let table_arg (v : value) (others : list N) :=
+  let table_arg (snap : bool) (v : value) (others : list N) :=
     match v with
-    | VObj a => match hget (st_heap s) a with Some (OTable _) => init2 s [] (a :: others) [] | _ => [] end
+    | VObj a =>
+        match hget (st_heap s) a with
+        | Some (OTable t) =>
+            init2 s [] (a :: others) [] ++
+            (let '(s2, out) := salloc s (OTable (mkTable [] [])) in
+             let eq2 := veq0 F (st_heap s2) in
+             if snap then
+               match titer (veq0 F (st_heap s)) t with
+               | Some l => fill_points eq2 s2 a out others (mkTable [] []) l
+               | None => []
+               end
+             else
+               match titer eq2 t with
+               | Some l => fill_points eq2 s2 a out others (mkTable [] []) (to_array_ins 0 l)
+               | None => []
+               end)
+        | _ => []
+        end
     | _ => []
     end in
   match n with
-  | NStdToArray => table_arg (speek s 0) []
-  | NStdMin | NStdMax | NStdSort => table_arg (speek s 1) (vaddr (speek s 0))
+  | NStdToArray => table_arg false (speek s 0) []
+  | NStdMin | NStdMax | NStdSort => table_arg true (speek s 1) (vaddr (speek s 0))
   | _ => []
   end.
 
